@@ -34,8 +34,9 @@ type Sink struct {
 	// Stamp, if set, is called for every event before it is stored (the
 	// simulator stamps task and sequence number, and may park the caller).
 	Stamp func(e *Event)
-	// Fault, if set, is consulted by MaybeFault.
-	Fault func(point int) int
+	// Route, if set, selects the sink of the calling task (several workload
+	// instances in one run).
+	Route func() *Sink
 }
 
 // NewSink allocates a sink with a fixed capacity.
@@ -65,6 +66,11 @@ func put(e Event) {
 	s := Cur.Load()
 	if s == nil {
 		return
+	}
+	if s.Route != nil {
+		if rs := s.Route(); rs != nil {
+			s = rs
+		}
 	}
 	e.Task = -1
 	if s.Stamp != nil {
@@ -101,6 +107,11 @@ func TickR(id int) int { put(Event{Kind: KTick, Tag: id}); return id }
 //go:norace
 func Param(i int) int {
 	s := Cur.Load()
+	if s != nil && s.Route != nil {
+		if rs := s.Route(); rs != nil {
+			s = rs
+		}
+	}
 	if s == nil || i < 0 || i >= len(s.Params) {
 		return 0
 	}
